@@ -14,6 +14,8 @@ AA = "ethosu/vela/architecture_allocator.py"
 
 
 def run(repo, rep):
+    rep.clause("C10-r", "Box.wrap keeps the coordinates of a broadcast operand inside it (interpreted on probes: a % b, a == b wraps to 0); the padding helpers that feed the stripe boxes bind top / bottom from height and left / right from width quantities")
+    rule_box_wrap(repo, rep)
     rep.clause("C10-a", "output stripes partition the output: every spatial loop is `for s in range(lo, hi, step): e = min(s + step, hi)` with the same bounds; depth uses consecutive slice entries clamped by the same bounds; the OFM box is built from exactly these")
     rep.clause("C10-b", "first / last stripe flags are derived from the same bounds; create_padding overrides top/bottom exactly for partial stripes and clips left/right at the IFM edges")
     rep.clause("C10-c", "stripe geometry is axis- and side-consistent (strides[1]/skirt[0,2]/coord[-3] = H, strides[2]/skirt[1,3]/coord[-2] = W); bottom padding = last kernel row minus IFM height")
@@ -361,6 +363,43 @@ def run(repo, rep):
     rep.check(ok, "C10-e", SITE_O, "the stripe heights proposed for the last operator of a sub-schedule are restricted by that operator's own upscaling factor",
               f"`{texts[0][:110]}` proposes every height: an operator that reads its IFM 2x nearest-neighbour upscaled and is last in its cascade gets an odd stripe (demonstrated: RESIZE_NEAREST_NEIGHBOR "
               "11x15 -> 22x30 last in a cascade, ethos-u65-512, --arena-cache-size 4000: stripe height 9, OFM rows 0..9 are given IFM rows 0..4 and need 0..5; the next stripe starts at the odd row 9)")
+    # the same decision by evaluation: the comprehension is folded for upscaling factors 1 and 2, every minimum height 1..9 and three OFM
+    # heights; every proposed height must be a multiple of the factor (a range() that *starts* at an odd minimum and steps by 2 is not)
+    import copy as _copy
+
+    class _Cand(ast.NodeTransformer):
+        def visit_Call(self, node):
+            self.generic_visit(node)
+            if isinstance(node.func, ast.Attribute) and node.func.attr == "with_height" and len(node.args) == 1:
+                return node.args[0]
+            return node
+
+        def visit_Attribute(self, node):
+            if node.attr == "height" and isinstance(node.value, ast.Name):
+                return ast.copy_location(ast.Name(id="H__", ctx=ast.Load()), node)
+            return self.generic_visit(node)
+
+    cand = _Cand().visit(_copy.deepcopy(pst[0].value))
+    ast.fix_missing_locations(cand)
+    free = {n_.id for n_ in ast.walk(cand) if isinstance(n_, ast.Name) and isinstance(n_.ctx, ast.Load)} - {"range", "H__"} - {n_.id for g_ in ast.walk(cand) if isinstance(g_, ast.comprehension) for n_ in ast.walk(g_.target) if isinstance(n_, ast.Name)}
+    mult_names = {n_ for n_ in free if n_ in local and "to_upscale(" in str(norm(local[n_]))}
+    min_names = free - mult_names
+    if len(mult_names) != 1 or len(min_names) != 1:
+        raise AnalysisError(f"optimize_sub_schedule: candidate heights use {sorted(free)} (expected one upscaling factor and one minimum height)")
+    code = compile(ast.Expression(cand), "<possible_stripes>", "eval")
+    wrong = None
+    for mult in (1, 2):
+        for mn in range(1, 10):
+            for hh in (16, 30, 48):
+                try:
+                    hs = eval(code, {"__builtins__": {}, "range": range, "H__": hh, next(iter(mult_names)): mult, next(iter(min_names)): mn})
+                except Exception as ex:  # noqa: BLE001
+                    raise AnalysisError(f"optimize_sub_schedule: candidate heights not evaluable: {ex}")
+                badh = [h_ for h_ in hs if h_ % mult]
+                if badh and wrong is None:
+                    wrong = (mult, mn, hh, badh[:3])
+    rep.check(wrong is None, "C10-e", SITE_O, "every proposed stripe height is a multiple of the last operator's upscaling factor (folded for factors 1, 2; minimum 1..9; OFM heights 16, 30, 48)",
+              f"factor {wrong[0]}, minimum height {wrong[1]}, OFM height {wrong[2]}: heights {wrong[3]} are proposed - an odd stripe on a 2x nearest-neighbour upscaled operator splits a row pair (IFM rows [0,3) for OFM rows [0,7) where [0,4) are needed)" if wrong else "")
     rep.floor("C10-e", 6)
 
     # producer / consumer roles at call sites of the cascade / scheduler code (rolling buffer between two cascaded ops:
@@ -765,3 +804,40 @@ def rule_upscaling_extent(repo, rep):
                   "transform_with_strides_and_skirt, IFM box of one column, IFM_BASE1 = 0)")
     if n < 2:
         raise AnalysisError(f"generate_high_level_commands_for_sched_op: {n} divisions defining `upscaling`")
+
+
+def rule_box_wrap(repo, rep):
+    """(r) Box.wrap keeps the coordinates of a broadcast operand inside the operand: a stripe of the OFM that starts at row y reads row
+    y mod h of an IFM2 of height h. Interpreted on probes: every coordinate comes back as a % b where b is non-zero (in particular a == b
+    wraps to 0: the stripe starting at row 1 of a height-1 operand reads row 0, not an empty box beyond the tensor), unchanged where b is 0."""
+    from ..absint import AList, Interp
+
+    hl = repo.mod("high_level_command_stream")
+    site = "ethosu/vela/high_level_command_stream.py:Box.wrap"
+    it = Interp(repo, hl, externs={"Shape4D": lambda i, a, k, n: a[0]})
+    probes = [([0, 1, 0, 0], [1, 1, 8, 16]), ([0, 3, 2, 5], [1, 4, 8, 16]), ([0, 4, 0, 16], [1, 4, 8, 16]), ([0, 9, 9, 17], [1, 4, 8, 16]), ([0, 5, 3, 2], [1, 0, 8, 0]), ([0, 2, 8, 0], [1, 1, 1, 1])]
+    n = 0
+    for a, b in probes:
+        ps = [p for p in it.run("Box.wrap", lambda a=a, b=b: ([AList(list(a)), AList(list(b))], {})) if p.kind == "return"]
+        if len(ps) != 1:
+            raise AnalysisError(f"Box.wrap: {len(ps)} returning paths for concrete arguments")
+        v = ps[0].value
+        got = list(v.items) if isinstance(v, AList) else (list(v) if isinstance(v, (list, tuple)) else None)
+        want = [x % y if y != 0 else x for x, y in zip(a, b)]
+        n += 1
+        rep.check(got == want, "C10-r", site, f"wrap({a}, {b}) = {want}", f"got {got}: a coordinate equal to the extent of a broadcast dimension is not wrapped - the stripe that starts there reads an empty box beyond the operand")
+    if n < 6:
+        raise AnalysisError("Box.wrap: probes not evaluated")
+    # axis roles of the padding helpers of the graph optimiser (transpose convolution / SAME / explicit padding feed the stripe boxes)
+    from ..roles import RoleChecker
+
+    rc = RoleChecker()
+    go = repo.mod("tflite_graph_optimiser")
+    m = 0
+    for fname in ("calc_padding_and_skirt", "calc_upscaled_padding_and_skirt"):
+        fn = go.func(fname)
+        for kind, txt, detail in rc.check_function(fn):
+            m += 1
+            (rep.bad if kind == "bad" else rep.ok)("C10-r", f"ethosu/vela/tflite_graph_optimiser.py:{fname}", txt[:110], detail)
+    if m < 4:
+        raise AnalysisError(f"padding helpers: only {m} axis-typed bindings")
